@@ -87,9 +87,26 @@ theorem strIn_ex (L : LeafLaws F) (hb : G.binTextValidated = true) (a b c e) (d 
       intro h1 h2
       exact key s (by simpa [strOk, hb, hd] using h1) h2
 
-theorem textIn_ex (L : LeafLaws F) (p : PrimTy) (d : Doc) : LeafEx F G p d (textIn F G p d) := by
+theorem textIn_ex (L : LeafLaws F) (bt : Bool) (p : PrimTy) (hp : ∀ s, validateString F p s = true) (d : Doc) :
+    LeafEx F G p d (textIn F G bt p d) := by
   cases d <;> simp only [textIn, kindError] <;> first | (split <;> trivial) | skip
   case str s => exact leafEx_ofOutcome L p s
+  case bytes bs =>
+    split
+    · split
+      · rename_i s hs
+        cases h : leafFromText F p s with
+        | ok v =>
+          simp only [ofOutcome, Res.good, LeafEx]
+          intro _ h2
+          rw [← L.soft p s v h, hp s, h2]; rfl
+        | fault => trivial
+        | crash e => trivial
+      · split <;> trivial
+    · split <;> trivial
+
+theorem boolPassIn_ex (d : Doc) : LeafEx F G .boolean d (boolPassIn d) := by
+  cases d <;> simp only [boolPassIn, leakVal] <;> first | trivial | exact fun _ _ => rfl
 
 theorem binDec_ex (L : LeafLaws F) (enc : BinEnc) (d : Doc) (s : Text) : LeafEx F G (.bytes enc) d (binDec F enc s) := by
   unfold binDec
@@ -132,12 +149,12 @@ theorem leafIn_ex (L : LeafLaws F) (hb : G.binTextValidated = true) (p : PrimTy)
     LeafEx F G p d (leafIn F G cfg p d) := by
   cases p <;> simp only [leafIn]
   case integer k r => split; exact intInMp_ex k r d; exact intInJson_ex k r d
-  case boolean => exact boolIn_ex d
+  case boolean => split; exact boolPassIn_ex d; exact boolIn_ex d
   case unicode a b c e => exact strIn_ex L hb a b c e d
-  case date => exact textIn_ex L _ d
-  case time => exact textIn_ex L _ d
-  case dateTime => exact textIn_ex L _ d
-  case duration => exact textIn_ex L _ d
+  case date => exact textIn_ex L _ _ (fun _ => rfl) d
+  case time => exact textIn_ex L _ _ (fun _ => rfl) d
+  case dateTime => exact textIn_ex L _ _ (fun _ => rfl) d
+  case duration => exact textIn_ex L _ _ (fun _ => rfl) d
   case bytes enc => exact bytesIn_ex L enc _ d
   case enum names => exact enumIn_ex names d
 
